@@ -8,7 +8,7 @@ THEOREMS = ["Props.C09.c18_abort", "Props.C09.saveMember_consistent", "Props.C10
 def run(check, tier):
     import archive_suite as S
 
-    n = 300 if tier == "quick" else 8000
+    n = 600 if tier == "quick" else 8000
     cases = [S.gen_case_abort(check.seed, i) for i in range(n)]
     results = run_cases("archive_suite", "case_abort", cases, chunk=8)
     methods = {}
